@@ -63,7 +63,7 @@ def subsequence(res, G, L, residue, live, prog, k, rate):
         if any(g.get("how") == "unwind-at-suspended-yield" for g in G):
             bad.append(("generator-ended-by-exception-at-suspended-yield", f"{len(unexplained)} finished frame(s) still held in tracer.traces"))
         else:
-            bad.append(("residue-in-tracer", f"{len(unexplained)} finished frame(s) still held in tracer.traces at quiescence (rate {rate})"))
+            bad.append(("residue-in-tracer", f"{len(unexplained)} finished frame(s) still referenced by the tracer at quiescence (rate {rate})"))
     for g in G:
         if labels.get(g["qual"], "may") == "must" and c02.flavor(g["code"]) == "plain":
             res.count(f"rate{rate}:plain_must_calls")
